@@ -5,10 +5,17 @@ from . import common
 from . import stft_common as sc
 
 PROP = "C14"
-MODULES = ["PdsVerif.Props.C14"]
+MODULES = ["PdsVerif.Props.StftTie", "PdsVerif.Props.C14"]
 MODEL_MODULES = ["PdsVerif.Model.StftDrv"]
-REQUIRED = ["PdsVerif.C14." + n for n in [
+REQUIRED = ["PdsVerif.StftTie." + n for n in ["full_pad_left_eq", "full_short_eq", "full_num_frames_eq", "full_pad_right_eq", "fin_pad_left_eq", "fin_num_frames_eq", "chunk_frame_length_eq", "chunk_num_frames_eq", "chunk_first_pad_eq", "torch_arith_eq_numpy", "torch_no_frame_eq"]] + ["PdsVerif.C14." + n for n in [
     "flip_pad_eq_symPad", "torch_frames_eq_numpy", "torch_walk_eq_numpy_walk", "torch_walk_covers", "torch_empty", "doubling_commutes"]]
+
+def translate(repo):
+    """framing arithmetic of compute.py / torch.py -> Generated/StftConsts.lean (theorems: Props/StftTie.lean)"""
+    from .translate import stftconsts
+    return stftconsts.generate(repo)
+
+
 RULE = (
     "PyTorch STFT module built by from_stft_frame_computer from tracer computers: (a) walk: DFT size D (all residues mod 4) "
     "x start x length x integer/gaussian taps with a signal irfft(A); (b) framing: (L,S,style,kaldi) x N with one-hot "
